@@ -457,3 +457,24 @@ func Label(n *Node, prefix string) *Node {
 	walk(c)
 	return c
 }
+
+// FromGo builds a Node from generic Go data (maps with string keys, slices, nil, leaves).
+func FromGo(v interface{}) *Node {
+	switch x := v.(type) {
+	case nil:
+		return NilN()
+	case map[string]interface{}:
+		n := &Node{K: Cont, D: map[string]*Node{}}
+		for k, e := range x {
+			n.D[k] = FromGo(e)
+		}
+		return n
+	case []interface{}:
+		n := &Node{K: Cont, HasA: true}
+		for _, e := range x {
+			n.A = append(n.A, FromGo(e))
+		}
+		return n
+	}
+	return LeafN(v)
+}
